@@ -59,6 +59,7 @@ type loopInfo struct {
 	hs       *State
 	variants []string
 	rangePhi *ssa.Phi
+	autoDec  bool
 	spec     *LoopSpec
 	pos      token.Pos
 }
@@ -1006,6 +1007,15 @@ func (fr *Frame) backEdge(li *loopInfo, from *ssa.BasicBlock, edge string, st *S
 		// range over a slice/array/string/map: the hidden index increases up to a fixed length
 		return
 	}
+	if (li.spec == nil || len(li.spec.Decreases) == 0) && countedLoop(li) != "" {
+		// for i := a; i < n; i++ with n fixed during the loop: decided on the shape of the SSA, once per loop
+		if !li.autoDec {
+			li.autoDec = true
+			o := c.obligation("dec", fmt.Sprintf("L%d", li.ord), li.pos, "loop "+fmt.Sprint(li.ord)+" is a counted loop: "+countedLoop(li), "true", "true", nil)
+			o.Static, o.Result, o.Solver = true, "proved", "syntactic: the loop counter moves by one towards a bound that the loop does not change"
+		}
+		return
+	}
 	if li.spec == nil || len(li.spec.Decreases) == 0 {
 		c.obligation("dec", fmt.Sprintf("L%d", li.ord), li.pos, "loop "+fmt.Sprint(li.ord)+" has no decreases clause", edge, "false", nil).Note = "termination claimed but no variant given"
 		return
@@ -1034,6 +1044,74 @@ func (fr *Frame) backEdge(li *loopInfo, from *ssa.BasicBlock, edge string, st *S
 		srcs = append(srcs, d.Src)
 	}
 	c.obligation("dec", fmt.Sprintf("L%d", li.ord), li.pos, "loop "+fmt.Sprint(li.ord)+" decreases "+strings.Join(srcs, ", "), edge, goal, nil)
+}
+
+// countedLoop recognises "for i := a; i <op> n; i++ / i--": the header ends in a comparison of a header phi
+// with a value defined outside the loop, the true branch stays in the loop, the false branch leaves it, and
+// every back edge feeds the phi with phi+1 (for < and <=) or phi-1 (for > and >=).  Returns a description,
+// or "" when the loop does not have this shape.  (Integers are mathematical, A-ARITH.)
+func countedLoop(li *loopInfo) string {
+	h := li.header
+	if len(h.Instrs) == 0 {
+		return ""
+	}
+	iff, ok := h.Instrs[len(h.Instrs)-1].(*ssa.If)
+	if !ok || len(h.Succs) != 2 || !li.body[h.Succs[0]] || li.body[h.Succs[1]] {
+		return ""
+	}
+	cmp, ok := iff.Cond.(*ssa.BinOp)
+	if !ok {
+		return ""
+	}
+	outside := func(v ssa.Value) bool {
+		switch x := v.(type) {
+		case *ssa.Const, *ssa.Parameter, *ssa.FreeVar:
+			return true
+		case ssa.Instruction:
+			return !li.body[x.Block()]
+		}
+		return false
+	}
+	try := func(cnt, bound ssa.Value, up bool) string {
+		phi, ok := cnt.(*ssa.Phi)
+		if !ok || phi.Block() != h || !outside(bound) {
+			return ""
+		}
+		for i, p := range h.Preds {
+			if !li.body[p] {
+				continue
+			}
+			step, ok := phi.Edges[i].(*ssa.BinOp)
+			if !ok {
+				return ""
+			}
+			one, ok := step.Y.(*ssa.Const)
+			if !ok || step.X != phi || one.Value == nil || one.Value.ExactString() != "1" {
+				return ""
+			}
+			if (up && step.Op != token.ADD) || (!up && step.Op != token.SUB) {
+				return ""
+			}
+		}
+		dir := "up"
+		if !up {
+			dir = "down"
+		}
+		return fmt.Sprintf("%s counts %s by one towards %s", phi.Comment, dir, bound.Name())
+	}
+	switch cmp.Op {
+	case token.LSS, token.LEQ:
+		if d := try(cmp.X, cmp.Y, true); d != "" {
+			return d
+		}
+		return try(cmp.Y, cmp.X, false)
+	case token.GTR, token.GEQ:
+		if d := try(cmp.X, cmp.Y, false); d != "" {
+			return d
+		}
+		return try(cmp.Y, cmp.X, true)
+	}
+	return ""
 }
 
 func headerHasNext(h *ssa.BasicBlock) bool {
